@@ -415,6 +415,14 @@ def check_r4(ctx, byname, strict=False):
         ctx.ob("C02.R4c", "_handle_full_queue:over-max-returns-null", ok,
                "beyond the maximum the reservation fails with nullptr (caller blocks or drops), never a pointer", loc=cond["loc"], fn=m)
         if strict:
+            # R4j (C09 only; seeded change C09-s16: a remembered "maximum reached" flag answered nullptr before looking at the node
+            # in use, which shrink() had meanwhile replaced by a small one): 'cannot grow' is answered from the node in use now —
+            # every nullptr return lies under the 'exceeds the maximum' outcome of the guard over the capacity computed in this call
+            null_rets = [p for p in g.return_nodes() if is_null(g.node_ast(p).get("val"))]
+            ctx.ob("C02.R4j", "_handle_full_queue:refusal-only-from-this-call's-capacity",
+                   not g.exists_path([g.entry_node], null_rets, avoid_edges=[(bid, "T")]),
+                   "every 'return nullptr' (block or drop) is reached only through the 'required capacity exceeds _max_capacity' outcome "
+                   "computed from the node in use in this call, never from remembered state", loc=cond["loc"], fn=m)
             # R4f (C09 only): the node that is allocated can hold the record: the allocation is reached only after
             # 'nbytes <= capacity' was established for the final value of the capacity variable
             fit = []
